@@ -1547,6 +1547,423 @@ Qed.
 End C10.
 
 (* ------------------------------------------------------------------ *)
+(* 3'. a machine never touches the OTHER machine's buffer               *)
+(* ------------------------------------------------------------------ *)
+(* the buffer of the other machine *)
+Definition obuf (f : fsm) (s : state) : list N := match f with ATCMD => ubuf s | UNSOL => cbuf s end.
+
+Lemma put_cur_obuf : forall f c s, obuf f (put_cur f c s) = obuf f s.
+Proof. intros. unfold put_cur. destruct (cu_fault c), f; reflexivity. Qed.
+Lemma print_string_obuf : forall f s t, obuf f (fst (print_string f s t)) = obuf f s.
+Proof. intros. unfold print_string. destruct (print_nstring _ _). apply put_cur_obuf. Qed.
+Lemma print_strings_obuf : forall f s t, obuf f (fst (print_strings f s t)) = obuf f s.
+Proof. intros. unfold print_strings. destruct (print_pieces _ _). apply put_cur_obuf. Qed.
+Lemma ewe_obuf : forall f s, obuf f (end_with_error f s) = obuf f s.
+Proof. destruct f; reflexivity. Qed.
+Lemma ewo_obuf : forall f s, obuf f (end_with_ok f s) = obuf f s.
+Proof. destruct f; reflexivity. Qed.
+Lemma sls_obuf : forall f rd s, obuf f (set_loop_state f rd s) = obuf f s.
+Proof. destruct f; reflexivity. Qed.
+Lemma sfao_obuf : forall f s, obuf f (start_flush_after_ok f s) = obuf f s.
+Proof. destruct f; reflexivity. Qed.
+Lemma sfa_obuf : forall f a b s, obuf f (start_flush_after f a b s) = obuf f s.
+Proof. destruct f; reflexivity. Qed.
+Lemma setg_pos_obuf : forall f p s, obuf f (setg_pos f p s) = obuf f s.
+Proof. destruct f; reflexivity. Qed.
+Lemma hold_exit_obuf : forall f s z, obuf f (fst (hold_exit s z)) = obuf f s.
+Proof. intros. unfold hold_exit. destruct (negb _), f; reflexivity. Qed.
+Lemma ack_ok_ubuf : forall s, ubuf (ack_ok s) = ubuf s. Proof. reflexivity. Qed.
+Lemma ack_error_ubuf : forall s, ubuf (ack_error s) = ubuf s. Proof. reflexivity. Qed.
+
+Lemma apply_edit_obuf : forall f e s, obuf f (apply_edit f e s) = obuf f s.
+Proof.
+  intros. unfold apply_edit. destruct e as [t|]; [|reflexivity].
+  destruct (_ <? _); [|reflexivity]. apply put_cur_obuf.
+Qed.
+
+Section OtherBuf.
+Variable D : desc.
+
+Lemma print_response_test_obuf : forall f s, obuf f (fst (print_response_test D f s)) = obuf f s.
+Proof.
+  intros. unfold print_response_test. destruct (cmd_of D f s) as [c|]; [|destruct f; reflexivity].
+  destruct (c_descr c) as [d|].
+  - pose proof (print_strings_obuf f s [nl_chars s; d]) as H.
+    destruct (print_strings f s [nl_chars s; d]) as [s1 ok]. cbn [fst] in H.
+    destruct ok; cbn [negb fst]; [|exact H].
+    destruct (c_htest c); cbn [fst]; rewrite ?sls_obuf, ?sfao_obuf; exact H.
+  - cbn [negb]. destruct (c_htest c); cbn [fst]; rewrite ?sls_obuf, ?sfao_obuf; reflexivity.
+Qed.
+
+Lemma header_obuf : forall f s (c : cmd) (K : state -> state),
+  (forall s', obuf f (K s') = obuf f s') ->
+  obuf f (let (s1, ok1) := print_string f (setg_pos f 0 s) (c_name c) in
+        if negb ok1 then end_with_error f s1 else
+        let (s2, ok2) := print_string f s1 [ch_EQ] in
+        if negb ok2 then end_with_error f s2 else K s2) = obuf f s.
+Proof.
+  intros f s c K HK.
+  pose proof (print_string_obuf f (setg_pos f 0 s) (c_name c)) as H1.
+  destruct (print_string f (setg_pos f 0 s) (c_name c)) as [s1 ok1]. cbn [fst] in H1.
+  rewrite setg_pos_obuf in H1.
+  destruct ok1; cbn [negb]; [|rewrite ewe_obuf; exact H1].
+  pose proof (print_string_obuf f s1 [ch_EQ]) as H2.
+  destruct (print_string f s1 [ch_EQ]) as [s2 ok2]. cbn [fst] in H2.
+  destruct ok2; cbn [negb]; [rewrite HK|rewrite ewe_obuf]; congruence.
+Qed.
+
+Lemma spfr_obuf : forall f s, obuf f (start_processing_format_read_args D f s) = obuf f s.
+Proof.
+  intros. unfold start_processing_format_read_args.
+  destruct (cmd_of D f (setg_pos f 0 s)) as [c|]; [|destruct f; reflexivity].
+  apply (header_obuf f s c (fun s2 => if vars_access_possible c RO then _ else if negb (c_hread c) then _ else _)).
+  intros s'. destruct (vars_access_possible c RO); [destruct f; reflexivity|].
+  destruct (negb (c_hread c)); [apply ewe_obuf|apply sls_obuf].
+Qed.
+
+Lemma spft_obuf : forall f s, obuf f (start_processing_format_test_args D f s) = obuf f s.
+Proof.
+  intros. unfold start_processing_format_test_args.
+  destruct (cmd_of D f (setg_pos f 0 s)) as [c|]; [|destruct f; reflexivity].
+  apply (header_obuf f s c (fun s2 => match c_vars c with _ :: _ => _ | [] => _ end)).
+  intros s'. destruct (c_vars c); [|destruct f; reflexivity].
+  pose proof (print_response_test_obuf f s') as H. destruct (print_response_test D f s') as [s3 ok3].
+  cbn [fst] in H. destruct ok3; rewrite ?ewe_obuf; exact H.
+Qed.
+
+Lemma next_format_var_obuf : forall f s, obuf f (fst (next_format_var D f s)) = obuf f s.
+Proof.
+  intros. unfold next_format_var. destruct (cmd_of D f s) as [c|]; [|destruct f; reflexivity].
+  destruct (_ <? _); [|destruct f; reflexivity].
+  destruct (_ <=? _); cbn [fst]; [rewrite ewe_obuf|]; destruct f; reflexivity.
+Qed.
+
+Lemma format_test_args_obuf : forall f s, obuf f (format_test_args D f s) = obuf f s.
+Proof.
+  intros. unfold format_test_args. destruct (cmd_of D f s) as [c|]; [|destruct f; reflexivity].
+  destruct (nth_error _ _) as [v|]; [|destruct f; reflexivity].
+  destruct (fmt_info v (get_cur f s)) as [c1 ok].
+  pose proof (put_cur_obuf f c1 s) as H0.
+  destruct ok; cbn [negb]; [|rewrite ewe_obuf; exact H0].
+  pose proof (next_format_var_obuf f (put_cur f c1 s)) as H1.
+  destruct (next_format_var D f (put_cur f c1 s)) as [s2 handled]. cbn [fst] in H1.
+  destruct handled; [congruence|].
+  pose proof (print_response_test_obuf f s2) as H2. destruct (print_response_test D f s2) as [s3 ok3].
+  cbn [fst] in H2. destruct ok3; rewrite ?ewe_obuf; congruence.
+Qed.
+
+Lemma spcl_ubuf : forall s, ubuf (start_print_cmd_list D s) = ubuf s.
+Proof. intros. unfold start_print_cmd_list. destruct (_ =? _); reflexivity. Qed.
+
+Lemma check_cbuf : forall s, cbuf (check_unsolicited_buffers D s) = cbuf s.
+Proof.
+  intros. unfold check_unsolicited_buffers, pop_unsolicited_cmd.
+  destruct (ring_empty _); [reflexivity|].
+  destruct (nth_error _ _) as [[ci t]|]; [|reflexivity].
+  destruct t; try reflexivity.
+  - exact (eq_trans (spfr_obuf UNSOL _) eq_refl).
+  - exact (eq_trans (spft_obuf UNSOL _) eq_refl).
+Qed.
+
+(* --- the pure steps of the command machine --- *)
+Lemma set_cmd_state_ubuf : forall s i v, ubuf (set_cmd_state s i v) = ubuf s.
+Proof. intros. unfold set_cmd_state. destruct (nth_error _ _); reflexivity. Qed.
+
+Lemma update_command_ubuf : forall s, ubuf (update_command D s) = ubuf s.
+Proof.
+  intros. unfold update_command.
+  destruct (cmd_by_index _ _) as [c|]; [|reflexivity].
+  destruct (get_cmd_state D s _) as [cs|]; [|reflexivity].
+  cbv zeta.
+  match goal with |- ubuf (if _ then _ else setk_index _ ?X) = _ =>
+    assert (H1 : ubuf X = ubuf s); [|revert H1; generalize X; intros s1 H1] end.
+  { destruct (negb _); [|reflexivity].
+    destruct (_ <? _); [apply set_cmd_state_ubuf|].
+    destruct (k_length (k s)); [reflexivity|].
+    destruct (nth_error _ _); [|reflexivity].
+    destruct (negb _); [apply set_cmd_state_ubuf|].
+    destruct (_ =? _); [|reflexivity].
+    destruct (c_implicit c); cbn [ubuf setk_implicit set_k]; apply set_cmd_state_ubuf. }
+  destruct (_ <=? _); [|exact H1].
+  destruct (negb _); exact H1.
+Qed.
+
+Lemma search_command_ubuf : forall s, ubuf (search_command D s) = ubuf s.
+Proof.
+  intros. unfold search_command.
+  destruct (get_cmd_state D s _) as [cs|]; [|reflexivity].
+  cbv zeta beta.
+  repeat (first [reflexivity | match goal with
+     | |- context [if ?c then _ else _] => destruct c
+     | |- context [match ?x with _ => _ end] => destruct x end]).
+Qed.
+
+Lemma command_found_ubuf : forall s, ubuf (command_found D s) = ubuf s.
+Proof.
+  intros. unfold command_found. destruct (cmd_of D ATCMD s) as [c|]; [|reflexivity].
+  destruct (k_type (k s)); try reflexivity.
+  - destruct (c_only_test c); [reflexivity|]. destruct (negb _); reflexivity.
+  - destruct (c_only_test c); [reflexivity|]. apply (spfr_obuf ATCMD).
+  - destruct (cbuf _); reflexivity.
+Qed.
+
+Lemma cmd_list_next_ubuf : forall s, ubuf (fst (cmd_list_next_cmd D s)) = ubuf s.
+Proof. intros. unfold cmd_list_next_cmd. destruct (_ <=? _); reflexivity. Qed.
+
+Lemma print_cmd_form_ubuf : forall s c avail suffix next,
+  ubuf (print_cmd_form s c avail suffix next) = ubuf s.
+Proof.
+  intros. unfold print_cmd_form. destruct avail; [|reflexivity].
+  unfold print_current_cmd_full_name.
+  set (s1 := setk_position 0 s).
+  assert (H1 : forall p : state * bool, ubuf (fst p) = ubuf s ->
+     ubuf (let (s2, ok) := (let (s1', ok1) := p in if negb ok1 then (s1', false)
+                            else print_strings ATCMD s1' [txt_AT; c_name c; suffix; nl_chars s1']) in
+           if negb ok then ack_error s2 else s2 |> start_flush_raw_c CS_PRINT_CMD |> setk_type next) = ubuf s).
+  { intros [s1' ok1] Hp. cbn [fst] in Hp. destruct ok1; cbn [negb]; [|exact Hp].
+    pose proof (print_strings_obuf ATCMD s1' [txt_AT; c_name c; suffix; nl_chars s1']) as H.
+    destruct (print_strings ATCMD s1' _) as [s2 ok]. cbn [fst obuf] in H.
+    destruct ok; cbn [negb]; [|rewrite ack_error_ubuf; congruence].
+    change (ubuf s2 = ubuf s). congruence. }
+  apply H1.
+  destruct (k_length (k s1) =? 0); [|reflexivity].
+  pose proof (print_string_obuf ATCMD s1 (nl_chars s1)) as H.
+  destruct (print_string ATCMD s1 (nl_chars s1)) as [s' ok]. cbn [fst obuf] in *.
+  destruct ok; exact H.
+Qed.
+
+Lemma print_cmd_list_ubuf : forall s, ubuf (print_cmd_list D s) = ubuf s.
+Proof.
+  intros. unfold print_cmd_list. destruct (cmd_by_index _ _) as [c|]; [|reflexivity].
+  cbv zeta.
+  assert (N : forall s0, ubuf (let (s1, more) := cmd_list_next_cmd D s0 in if more then s1 else ack_ok s1) = ubuf s0).
+  { intros s0. pose proof (cmd_list_next_ubuf s0) as H. destruct (cmd_list_next_cmd D s0) as [s1 more].
+    cbn [fst] in H. destruct more; [exact H|rewrite ack_ok_ubuf; exact H]. }
+  destruct (k_type _).
+  - destruct (is_command_disable _ _ _); [rewrite N|]; reflexivity.
+  - rewrite print_cmd_form_ubuf. reflexivity.
+  - rewrite print_cmd_form_ubuf. reflexivity.
+  - rewrite print_cmd_form_ubuf. reflexivity.
+  - rewrite print_cmd_form_ubuf. reflexivity.
+  - rewrite N. reflexivity.
+Qed.
+
+Lemma process_hold_state_ubuf : forall s, ubuf (process_hold_state s) = ubuf s.
+Proof. intros. unfold process_hold_state. destruct (_ =? _)%Z; [reflexivity|]. destruct (_ <? _)%Z; reflexivity. Qed.
+Lemma reset_state_ubuf : forall s, ubuf (reset_state s) = ubuf s.
+Proof. intros. unfold reset_state. destruct (k_hold _); reflexivity. Qed.
+End OtherBuf.
+
+Section OtherBufW.
+Variable D : desc.
+Variables ioS muS hS : Type.
+Variable io_read : ioS -> ioS * option N.
+Variable io_write : ioS -> N -> ioS * bool.
+Variable mu_lock : muS -> muS * bool.
+Variable mu_unlock : muS -> muS * bool.
+Variable h_call : hS -> hreq -> hS * hres.
+Local Notation world := (Fsm.world ioS muS hS).
+Local Notation st := (Fsm.st ioS muS hS).
+Local Notation call_h := (Fsm.call_h D ioS muS hS mu_lock mu_unlock h_call).
+Local Notation format_read_args := (Fsm.format_read_args D ioS muS hS mu_lock mu_unlock h_call).
+Local Notation parse_write_args := (Fsm.parse_write_args D ioS muS hS mu_lock mu_unlock h_call).
+Local Notation process_rt_loop := (Fsm.process_rt_loop D ioS muS hS mu_lock mu_unlock h_call).
+Local Notation process_write_loop := (Fsm.process_write_loop D ioS muS hS mu_lock mu_unlock h_call).
+Local Notation process_run_loop := (Fsm.process_run_loop D ioS muS hS mu_lock mu_unlock h_call).
+Local Notation reading := (Fsm.reading ioS muS hS io_read).
+Local Notation unsolicited_events_service :=
+  (Fsm.unsolicited_events_service D ioS muS hS io_write mu_lock mu_unlock h_call).
+Local Notation cmd_service :=
+  (Fsm.cmd_service D ioS muS hS io_read io_write mu_lock mu_unlock h_call).
+
+Lemma call_h_obuf : forall f w q, obuf f (st (fst (call_h w q))) = obuf f (st w).
+Proof.
+  intros. pose proof (call_h_kframe D ioS muS hS mu_lock mu_unlock h_call w q) as K.
+  destruct f; [apply (kframe_ubuf _ _ K)|apply (kframe_cbuf _ _ K)].
+Qed.
+
+Lemma format_read_args_obuf : forall f w, obuf f (st (fst (format_read_args f w))) = obuf f (st w).
+Proof.
+  intros. unfold Fsm.format_read_args.
+  destruct (g_cmd f (st w)) as [ci|]; [|destruct f; reflexivity].
+  destruct (cmd_of D f (st w)) as [c|]; [|destruct f; reflexivity].
+  destruct (nth_error _ _) as [v|]; [|destruct f; reflexivity].
+  assert (G : forall w1 : world, obuf f (st w1) = obuf f (st w) -> forall failed : bool,
+    obuf f (st (fst (if failed then Fsm.busy ioS muS hS (Fsm.upd_st ioS muS hS (end_with_error f) w1)
+      else Fsm.busy ioS muS hS (Fsm.upd_st ioS muS hS (fun s =>
+        match nth_error (mem s) (v_slot v) with
+        | None => set_fault_flag s
+        | Some data =>
+          let (c1, ok) := fmt_var v data (get_cur f s) in
+          let s1 := put_cur f c1 s in
+          if negb ok then end_with_error f s1
+          else
+            let (s2, handled) := next_format_var D f s1 in
+            if handled then s2
+            else if c_hread c then set_loop_state f true s2
+            else start_flush_after_ok f s2
+        end) w1)))) = obuf f (st w)).
+  { intros w1 H1 failed. destruct failed; cbn [fst Fsm.busy Fsm.upd_st Fsm.set_st Fsm.st];
+      [rewrite ewe_obuf; exact H1|].
+    destruct (nth_error _ _) as [data|]; [|destruct f; exact H1].
+    destruct (fmt_var v data (get_cur f (st w1))) as [c1 ok].
+    pose proof (put_cur_obuf f c1 (st w1)) as H0.
+    destruct ok; cbn [negb]; [|rewrite ewe_obuf; congruence].
+    pose proof (next_format_var_obuf D f (put_cur f c1 (st w1))) as H2.
+    destruct (next_format_var D f (put_cur f c1 (st w1))) as [s2 handled]. cbn [fst] in H2.
+    destruct handled; [congruence|].
+    destruct (c_hread c); rewrite ?sls_obuf, ?sfao_obuf; congruence. }
+  destruct (v_hread v).
+  - pose proof (call_h_obuf f w (VRead f ci (g_var f (st w)))) as H.
+    destruct (call_h w _) as [w' r]. cbn [fst] in H. exact (G w' H (negb (r_code r =? 0)%Z)).
+  - exact (G w eq_refl false).
+Qed.
+
+Lemma process_rt_loop_obuf : forall rd f w, obuf f (st (fst (process_rt_loop rd f w))) = obuf f (st w).
+Proof.
+  intros. unfold Fsm.process_rt_loop.
+  destruct (g_cmd f (st w)) as [ci|]; [|destruct f; reflexivity].
+  match goal with |- context [call_h w ?q] => pose proof (call_h_obuf f w q) as H; destruct (call_h w q) as [w1 r] end.
+  cbn [fst] in *. cbn [Fsm.busy Fsm.upd_st Fsm.set_st Fsm.st fst].
+  pose proof (apply_edit_obuf f (r_edit r) (st w1)) as He.
+  set (se := apply_edit f (r_edit r) (st w1)) in *.
+  assert (Hs : obuf f se = obuf f (st w)) by congruence.
+  destruct (_ =? RC_OK)%Z; [rewrite ewo_obuf; exact Hs|].
+  destruct (_ =? RC_DATA_OK)%Z; [rewrite sfa_obuf; exact Hs|].
+  destruct (_ =? RC_DATA_NEXT)%Z; [destruct rd; rewrite sfa_obuf; exact Hs|].
+  destruct (_ =? RC_NEXT)%Z; [destruct rd; [rewrite spfr_obuf|rewrite spft_obuf]; exact Hs|].
+  destruct (_ =? RC_HOLD)%Z; [destruct f; exact Hs|].
+  destruct (_ =? RC_HOLD_EXIT_OK)%Z; [rewrite ewo_obuf, hold_exit_obuf; exact Hs|].
+  destruct (_ =? RC_HOLD_EXIT_ERROR)%Z; [rewrite ewe_obuf, hold_exit_obuf; exact Hs|].
+  destruct (_ && _); [|rewrite ewe_obuf; exact Hs].
+  destruct f; [cbn [obuf]; rewrite spcl_ubuf; exact Hs|exact Hs].
+Qed.
+
+Theorem C10_event_machine_keeps_cbuf : forall w,
+  cbuf (st (fst (unsolicited_events_service w))) = cbuf (st w).
+Proof.
+  intros. unfold Fsm.unsolicited_events_service.
+  destruct (u_state (u (st w))).
+  - destruct (negb _); [|reflexivity].
+    cbn [fst Fsm.busy Fsm.upd_st Fsm.set_st Fsm.st].
+    destruct (ring_items D (st w)); cbn [Fsm.st Fsm.logw]; apply check_cbuf.
+  - apply (format_read_args_obuf UNSOL).
+  - cbn [fst Fsm.busy Fsm.upd_st Fsm.set_st Fsm.st]. apply (format_test_args_obuf D UNSOL).
+  - apply (process_rt_loop_obuf true UNSOL).
+  - apply (process_rt_loop_obuf false UNSOL).
+  - cbn [fst Fsm.busy Fsm.upd_st Fsm.set_st Fsm.st]. unfold unsolicited_process_io_write_wait.
+    destruct (negb _); reflexivity.
+  - unfold Fsm.unsolicited_process_io_write.
+    destruct (wbuf_char _ _ _) as [ch|]; [|reflexivity].
+    destruct (ch =? 0)%N.
+    + cbn [fst Fsm.busy Fsm.upd_st Fsm.set_st Fsm.st]. destruct (u_wstate _); reflexivity.
+    + destruct (io_write _ ch) as [io' ok]. destruct ok; reflexivity.
+  - reflexivity.
+  - reflexivity.
+  - cbn [fst Fsm.busy Fsm.upd_st Fsm.set_st Fsm.st]. apply (spfr_obuf D UNSOL).
+  - cbn [fst Fsm.busy Fsm.upd_st Fsm.set_st Fsm.st]. apply (spft_obuf D UNSOL).
+Qed.
+
+(* --- command machine --- *)
+Lemma reading_ubuf : forall w (body : N -> state -> state),
+  (forall ch s, ubuf (body ch s) = ubuf s) -> ubuf (st (fst (reading w body))) = ubuf (st w).
+Proof.
+  intros w body Hb. unfold Fsm.reading, Fsm.read_cmd_char.
+  destruct (io_read _) as [io' r]. destruct r as [ch|]; [|reflexivity].
+  cbn [negb fst Fsm.busy Fsm.upd_st Fsm.set_st Fsm.st]. rewrite Hb.
+  destruct (_ && _); reflexivity.
+Qed.
+
+Lemma process_write_loop_ubuf : forall w, ubuf (st (fst (process_write_loop w))) = ubuf (st w).
+Proof.
+  intros. unfold Fsm.process_write_loop.
+  destruct (g_cmd ATCMD (st w)) as [ci|]; [|reflexivity].
+  match goal with |- context [call_h w ?q] => pose proof (call_h_obuf ATCMD w q) as H; destruct (call_h w q) as [w1 r] end.
+  cbn [fst obuf] in *. cbn [Fsm.busy Fsm.upd_st Fsm.set_st Fsm.st fst].
+  destruct (_ || _); [exact H|]. destruct (_ || _); [exact H|]. destruct (_ =? _)%Z; exact H.
+Qed.
+
+Lemma process_run_loop_ubuf : forall w, ubuf (st (fst (process_run_loop w))) = ubuf (st w).
+Proof.
+  intros. unfold Fsm.process_run_loop.
+  destruct (g_cmd ATCMD (st w)) as [ci|]; [|reflexivity].
+  match goal with |- context [call_h w ?q] => pose proof (call_h_obuf ATCMD w q) as H; destruct (call_h w q) as [w1 r] end.
+  cbn [fst obuf] in *. cbn [Fsm.busy Fsm.upd_st Fsm.set_st Fsm.st fst].
+  destruct (_ || _); [exact H|]. destruct (_ || _); [exact H|]. destruct (_ =? _)%Z; [exact H|].
+  destruct (_ =? _)%Z; [rewrite spcl_ubuf|]; exact H.
+Qed.
+
+Lemma parse_write_args_ubuf : forall w, ubuf (st (fst (parse_write_args w))) = ubuf (st w).
+Proof.
+  intros. unfold Fsm.parse_write_args.
+  destruct (g_cmd ATCMD (st w)) as [ci|]; [|reflexivity].
+  destruct (cmd_of D ATCMD (st w)) as [c|]; [|reflexivity].
+  destruct (nth_error _ _) as [v|]; [|reflexivity].
+  destruct (nth_error _ _) as [data|]; [|reflexivity].
+  destruct (decode_var _ _ _) as [[[pst data'] wsz] n].
+  destruct pst; try reflexivity.
+  assert (G : forall (w3 : world) (failed : bool), ubuf (st w3) = ubuf (st w) ->
+    ubuf (st (fst (if failed then Fsm.busy ioS muS hS (Fsm.upd_st ioS muS hS ack_error w3)
+     else Fsm.busy ioS muS hS (Fsm.upd_st ioS muS hS (fun s =>
+            let idx := S (k_index (k s)) in
+            let s := setk_index idx s in
+            if (idx <? length (c_vars c)) && comma then setk_var idx s
+            else if comma then ack_error s
+            else if c_need_all c && negb (idx =? length (c_vars c)) then ack_error s
+            else if negb (c_hwrite c) then ack_ok s
+            else setk_state CS_WRITE_LOOP s) w3)))) = ubuf (st w)).
+  { intros w3 failed H3. destruct failed; cbn [fst Fsm.busy Fsm.upd_st Fsm.set_st Fsm.st]; [exact H3|].
+    destruct (_ && _); [exact H3|]. destruct comma; [exact H3|].
+    destruct (_ && _); [exact H3|]. destruct (negb _); exact H3. }
+  destruct (v_hwrite v).
+  - match goal with |- context [call_h ?ww ?q] => pose proof (call_h_obuf ATCMD ww q) as H; destruct (call_h ww q) as [w1 r] end.
+    cbn [fst obuf] in H. exact (G w1 (negb (r_code r =? 0)%Z) H).
+  - match goal with |- context [Fsm.upd_st _ _ _ _ ?w3] => exact (G w3 false eq_refl) end.
+Qed.
+
+Theorem C10_command_machine_keeps_ubuf : forall w,
+  ubuf (st (fst (cmd_service w))) = ubuf (st w).
+Proof.
+  intros. unfold Fsm.cmd_service.
+  destruct (k_state (k (st w)));
+    try (cbn [fst Fsm.busy Fsm.upd_st Fsm.set_st Fsm.st]; reflexivity).
+  - apply reading_ubuf. intros ch s. destruct (_ =? _)%N; [reflexivity|]. destruct (_ =? _)%N; reflexivity.
+  - apply reading_ubuf. intros ch s. destruct (_ =? _)%N; [reflexivity|]. destruct (_ || _); reflexivity.
+  - apply reading_ubuf. intros ch s. destruct (_ =? _)%N; [reflexivity|]. destruct (_ =? _)%N; [reflexivity|].
+    destruct (_ =? _)%N; reflexivity.
+  - apply reading_ubuf. intros ch s.
+    repeat (first [reflexivity | progress cbv zeta | match goal with |- context [if ?c then _ else _] => destruct c end]).
+  - cbn [fst Fsm.busy Fsm.upd_st Fsm.set_st Fsm.st]. apply update_command_ubuf.
+  - apply reading_ubuf. intros ch s. destruct (_ =? _)%N; [reflexivity|]. destruct (_ =? _)%N; reflexivity.
+  - cbn [fst Fsm.busy Fsm.upd_st Fsm.set_st Fsm.st]. apply search_command_ubuf.
+  - cbn [fst Fsm.busy Fsm.upd_st Fsm.set_st Fsm.st]. apply command_found_ubuf.
+  - apply reading_ubuf. intros ch s. destruct (cmd_of D ATCMD s) as [c|]; [|reflexivity].
+    repeat (first [reflexivity | progress cbv zeta | match goal with |- context [if ?c then _ else _] => destruct c end]).
+  - apply parse_write_args_ubuf.
+  - apply (format_read_args_obuf ATCMD).
+  - apply reading_ubuf. intros ch s. destruct (_ =? _)%N; [apply (spft_obuf D ATCMD)|].
+    destruct (_ =? _)%N; reflexivity.
+  - cbn [fst Fsm.busy Fsm.upd_st Fsm.set_st Fsm.st]. apply (format_test_args_obuf D ATCMD).
+  - apply process_write_loop_ubuf.
+  - apply (process_rt_loop_obuf true ATCMD).
+  - apply (process_rt_loop_obuf false ATCMD).
+  - apply process_run_loop_ubuf.
+  - cbn [fst Fsm.busy Fsm.upd_st Fsm.set_st Fsm.st]. apply process_hold_state_ubuf.
+  - cbn [fst Fsm.busy Fsm.upd_st Fsm.set_st Fsm.st]. unfold process_io_write_wait. destruct (negb _); reflexivity.
+  - unfold Fsm.process_io_write.
+    destruct (wbuf_char _ _ _) as [ch|]; [|reflexivity].
+    destruct (ch =? 0)%N.
+    + cbn [fst Fsm.busy Fsm.upd_st Fsm.set_st Fsm.st]. destruct (k_wstate _); try reflexivity.
+      destruct (cstate_beq _ _); reflexivity.
+    + destruct (io_write _ ch) as [io' ok]. destruct ok; reflexivity.
+  - cbn [fst Fsm.busy Fsm.upd_st Fsm.set_st Fsm.st]. apply reset_state_ubuf.
+  - cbn [fst Fsm.busy Fsm.upd_st Fsm.set_st Fsm.st]. apply (spfr_obuf D ATCMD).
+  - cbn [fst Fsm.busy Fsm.upd_st Fsm.set_st Fsm.st]. apply (spft_obuf D ATCMD).
+  - cbn [fst Fsm.busy Fsm.upd_st Fsm.set_st Fsm.st]. apply print_cmd_list_ubuf.
+Qed.
+End OtherBufW.
+
+(* ------------------------------------------------------------------ *)
 (* 5b. the same on the scripted handler environment of Script.v:        *)
 (*     "the handler returns c1..cn" is a statement about its script     *)
 (* ------------------------------------------------------------------ *)
